@@ -26,8 +26,11 @@ COQ_IMPORTS = ['C05_Model']
 TOL = None
 ORACLE_PREMISES = [
     'pydicom dcmread/save_as deliver the PixelData value bytes and the image-pixel attributes unchanged',
-    'numpy frombuffer little-endian views and pydicom unpack_bits / _correct_unused_bits behave as modelled '
-    '(le_word, byte_bits, fix_stored); exercised on every native case against an independent numpy decode',
+    'numpy frombuffer little-endian views and pydicom unpack_bits / _correct_unused_bits / reshape_pixel_array behave '
+    'as modelled (le_word, byte_bits, fix_stored, deplane); exercised on every native / planar / history case against '
+    'an independent numpy decode',
+    'pydicom recognises an edited image by the ids of the pixel-describing element values (equal ids <-> equal '
+    'values; the harness keeps replaced values alive so that ids are not reused)',
     'pydicom read_tag / read_UL / parse_basic_offsets parse item headers (item-level model of the encapsulated stream)',
     'codecs (RLE, JPEG-LS, JPEG baseline) are deterministic functions of the frame bytes; '
     'pydicom.encaps.get_frame returns the fragments of frame i (eager raw path)',
@@ -35,8 +38,12 @@ ORACLE_PREMISES = [
 MODELLED = ('image._standardize_frame_index, get_raw_frame (native byte range incl. bit-packed), path selection of '
             'get_stored_frame(s)/pixel_array; io._read_metadata (native offset table; extended/basic/rebuilt table '
             'choice), _get_bot, _build_bot, _read_eot length check, read_frame_raw (native + encapsulated, item '
-            'level); frame.decode_frame native branch (bit window, little-endian words, BitsStored correction)')
-STRATA = ['native', 'index', 'reader_index', 'reader_neg', 'raw422', 'encaps', 'encaps_bad', 'codec', 'codec1', 'fixture']
+            'level); frame.decode_frame native branch (bit window, little-endian words, BitsStored correction, '
+            'planar configuration handed to the one-frame dataset); in-memory image with pydicom\'s cache of the '
+            'decoded array (Dataset.pixel_array validation, reset on PixelData assignment) under histories of reads '
+            'and edits: get_stored_frame / get_stored_frames / pixel_array / get_raw_frame / decode_frame(raw)')
+STRATA = ['native', 'index', 'reader_index', 'reader_neg', 'raw422', 'encaps', 'encaps_bad', 'codec', 'codec1', 'fixture',
+          'planar', 'history']
 NOT_EXECUTED = ['JPEG 2000 fixtures (no openjpeg codec installed, none decodable here)',
                 'big-endian transfer syntaxes (rejected by _check_little_endian)']
 RULE = ('native: BitsAllocated 1/8/16/32 x signed x 1|3 samples x 1..6 frames, rows/cols 1..7 (every residue of '
@@ -48,7 +55,14 @@ RULE = ('native: BitsAllocated 1/8/16/32 x signed x 1|3 samples x 1..6 frames, r
         'single-frame objects WITHOUT NumberOfFrames (CT/DX IOD) x RLE|JPEG-LS x 1-4 fragments x table x all 5 sources; '
         'every codec/fixture case: each access route called FIRST on a fresh image (stored frame, raw frame, batch, '
         'pixel_array) and again after the others, eager + lazy + ImageFileReader; fixture: shipped JPEG-LS (with '
-        'and without BOT) and JPEG baseline files. non-trivial = more than one frame or a rejected request')
+        'and without BOT) and JPEG baseline files. planar: native colour images, 8/16/32 bit, signed and '
+        'unsigned, PlanarConfiguration 0 and 1 (colour-by-plane), all paths x sources as for native; history: '
+        'in-memory image (dataset / bytes / path), mono, bit-packed and colour, random sequences of reads '
+        '(pixel_array, get_stored_frame, get_stored_frames, get_raw_frame, decode_frame(raw)) and edits '
+        '(PixelData assigned, PixelData element value replaced in place, PixelRepresentation / BitsStored / '
+        'Rows<->Columns / PlanarConfiguration changed), every kind of read first after every kind of edit with '
+        'a warm and a cold cache; values, dtype and shape observed. non-trivial = more than one frame or a '
+        'rejected request (history: at least one edit)')
 
 _TMP = None
 
@@ -178,6 +192,100 @@ def _encaps_case(rng, bad):
     return c
 
 
+def _planar_fields(rng, small=False):
+    """Native colour image: 8/16/32 bit, signed or not, colour-by-pixel or colour-by-plane."""
+    f = _native_fields(rng, bits=rng.choice([8, 8, 16, 16, 32]))
+    f['spp'], f['signed'] = 3, rng.choice([0, 0, 1])
+    f['planar'] = rng.choice([1, 1, 0])
+    if small:
+        f['rows'], f['cols'], f['n'] = rng.randint(1, 3), rng.randint(1, 3), rng.choice([1, 2, 3])
+    f['single_iod'] = False
+    ln = _pd_len(f['bits'], f['rows'] * f['cols'] * 3, f['n'])
+    f['pd'] = bytes(rng.randrange(256) for _ in range(ln)).hex()
+    return f
+
+
+HEADER_KEYS = ('bs', 'signed', 'rows', 'cols', 'planar')
+
+
+def _history_case(rng):
+    """In-memory image + a sequence of reads and edits.  Edits carry the complete new value
+    (PixelData bytes / header fields), so any sub-sequence of the ops is a valid history."""
+    if rng.random() < 0.3:
+        f = _planar_fields(rng, small=True)
+    else:
+        f = _native_fields(rng)
+        f['rows'], f['cols'] = min(f['rows'], 4), min(f['cols'], 4)
+        f['n'] = min(f['n'], 4)
+        f['pd'] = bytes(rng.randrange(256) for _ in range(_pd_len(f['bits'], f['rows'] * f['cols'] * f['spp'], f['n']))).hex()
+    f['single_iod'] = False
+    f['src'] = rng.choice(['dataset', 'bytes', 'path'])
+    f['ts'] = rng.choice(['explicit', 'implicit'])
+    f.setdefault('planar', 0)
+    n = f['n']
+    cur = {k: f[k] for k in HEADER_KEYS}
+
+    def num():
+        ai = rng.random() < 0.4
+        if rng.random() < 0.12:
+            return rng.choice([-1, 0, n, n + 1]), ai
+        return (rng.randrange(n) if ai else rng.randint(1, n)), ai
+
+    def read(kind=None):
+        kind = kind or rng.choice(['one', 'one', 'batch', 'whole', 'raw', 'decraw'])
+        if kind == 'whole':
+            return ['whole']
+        if kind == 'batch':
+            if rng.random() < 0.3:
+                return ['batch', None, False]
+            ai = rng.random() < 0.4
+            fs = [(rng.randrange(n) if ai else rng.randint(1, n)) for _ in range(rng.randint(1, 3))]
+            if rng.random() < 0.1:
+                fs[rng.randrange(len(fs))] = n + 1
+            return ['batch', fs, ai]
+        fnum, ai = num()
+        return [kind, fnum, ai]
+
+    def edit():
+        opts = ['inplace', 'inplace', 'assign']
+        if f['bits'] > 1:
+            opts += ['signed', 'signed', 'bs']
+        if cur['rows'] != cur['cols']:
+            opts.append('swap')
+        if f['spp'] == 3 and f['bits'] > 1:
+            opts += ['planar', 'planar']
+        e = rng.choice(opts)
+        if e in ('inplace', 'assign'):
+            ln = _pd_len(f['bits'], f['rows'] * f['cols'] * f['spp'], n)
+            return [e, bytes(rng.randrange(256) for _ in range(ln)).hex()]
+        if e == 'signed':
+            cur['signed'] = 1 - cur['signed']
+        elif e == 'bs':
+            cur['bs'] = rng.choice([b for b in range(1, f['bits'] + 1) if b != cur['bs']])
+        elif e == 'swap':
+            cur['rows'], cur['cols'] = cur['cols'], cur['rows']
+        elif e == 'planar':
+            cur['planar'] = 1 - cur['planar']
+        return ['header', dict(cur)]
+
+    ops = []
+    for _ in range(rng.choice([1, 1, 2])):
+        # warm-up: often fill the cache, sometimes leave it cold
+        w = rng.random()
+        if w < 0.6:
+            ops.append(['whole'])
+        elif w < 0.8:
+            ops.append(read())
+        if rng.random() < 0.3:
+            ops.append(read())
+        for _ in range(rng.choice([1, 1, 2])):
+            ops.append(edit())
+        for _ in range(rng.choice([1, 2, 3])):
+            ops.append(read())
+    f['ops'] = ops
+    return f
+
+
 def gen_cases(rng, tier):
     k = {'quick': 1, 'thorough': 12, 'search': 5}[tier]
     cases = []
@@ -249,6 +357,31 @@ def gen_cases(rng, tier):
                               'signed': signed, 'spp': 1, 'rows': rows, 'cols': cols, 'n': 1, 'frags': frags,
                               'table': table, 'src': src, 'single_iod': rng.choice(['ct', 'dx']),
                               'seed': rng.randrange(1 << 30)})
+    # colour-by-plane / signed colour: every path, every source
+    for _ in range(40 * k):
+        cases.append(dict(_planar_fields(rng), kind='planar'))
+    # histories of reads and edits on an in-memory image; every kind of read first after every kind of edit
+    for first in ('one', 'one', 'batch', 'whole', 'raw', 'decraw'):
+        for ed in ('inplace', 'assign', 'header'):
+            for warm in (True, True, False):
+                for _ in range(k):
+                    h = _history_case(rng)
+                    cur = {kk: h[kk] for kk in HEADER_KEYS}
+                    ln = len(h['pd']) // 2
+                    if ed == 'header':
+                        if h['bits'] > 1:
+                            cur['signed'] = 1 - cur['signed']
+                        elif cur['rows'] != cur['cols']:
+                            cur['rows'], cur['cols'] = cur['cols'], cur['rows']
+                        e = ['header', cur]
+                    else:
+                        e = [ed, bytes(rng.randrange(256) for _ in range(ln)).hex()]
+                    fnum = rng.randint(1, h['n'])
+                    rd = {'whole': ['whole'], 'batch': ['batch', None, False]}.get(first, [first, fnum, False])
+                    h['ops'] = ([['whole']] if warm else []) + [e, rd, ['one', fnum, False], ['batch', None, False], ['whole']]
+                    cases.append(dict(h, kind='history'))
+    for _ in range(40 * k):
+        cases.append(dict(_history_case(rng), kind='history'))
     for name in ('sm_image_jpegls.dcm', 'sm_image_jpegls_nobot.dcm', 'sm_image.dcm', 'sm_image_control.dcm',
                  'seg_image_ct_binary.dcm', 'ct_image.dcm'):
         for src in (['path', 'bytes'] if tier == 'quick' else SOURCES[1:]):
@@ -299,6 +432,8 @@ def _native_ds(c):
     from pydicom.uid import ExplicitVRLittleEndian, ImplicitVRLittleEndian
     ds = _base_ds(c, c['n'])
     _set_format(ds, c['bits'], c['bs'], c['signed'], c['spp'])
+    if c['spp'] == 3 and c.get('planar'):
+        ds.PlanarConfiguration = 1
     ds.file_meta.TransferSyntaxUID = ExplicitVRLittleEndian if c['ts'] == 'explicit' else ImplicitVRLittleEndian
     ds.PixelData = bytes.fromhex(c['pd'])
     ds['PixelData'].VR = 'OW' if c['bits'] > 8 else 'OB'
@@ -612,7 +747,9 @@ def run_impl(c):
     from highdicom.io import ImageFileReader
     from pydicom.filebase import DicomBytesIO
     k = c['kind']
-    if k == 'native':
+    if k == 'history':
+        return _run_history(c)
+    if k in ('native', 'planar'):
         ds = _native_ds(c)
         n = c['n']
         op = _Opened(_file_bytes(ds), c['src'], ds)
@@ -749,6 +886,69 @@ def run_impl(c):
     raise ValueError(k)
 
 
+def _std(c, f, ai):
+    return f if ai else f - 1
+
+
+def _run_history(c):
+    """One in-memory image, the ops applied in order.  Reads answer [[dtype, frame shape], values]
+    (raw: the bytes), edits answer None."""
+    import numpy as np
+    from highdicom.frame import decode_frame
+    ds = _native_ds(c)
+    op = _Opened(_file_bytes(ds), c['src'], ds)
+    n = c['n']
+    keep = []        # replaced values stay alive: pydicom recognises edits by id()
+
+    def ans(a, batch):
+        a = np.asarray(a)
+        if batch:
+            return [[str(a.dtype), list(a.shape[1:])], a.reshape(a.shape[0], -1).tolist()]
+        return [[str(a.dtype), list(a.shape)], a.reshape(-1).tolist()]
+
+    def do(im, o):
+        t = o[0]
+        if t == 'whole':
+            a = im.pixel_array
+            return ans(a[None] if n == 1 else a, True)
+        if t == 'one':
+            return ans(im.get_stored_frame(o[1], as_index=o[2]), False)
+        if t == 'batch':
+            return ans(im.get_stored_frames(o[1], as_indices=o[2]), True)
+        if t == 'raw':
+            return list(im.get_raw_frame(o[1], as_index=o[2]))
+        if t == 'decraw':
+            raw = im.get_raw_frame(o[1], as_index=o[2])
+            return ans(decode_frame(raw, index=_std(c, o[1], o[2]), **_decode_kw(im)), False)
+        if t == 'assign':
+            keep.append(im.PixelData)
+            im.PixelData = bytes.fromhex(o[1])
+            return None
+        if t == 'inplace':
+            keep.append(im['PixelData'].value)
+            im['PixelData'].value = bytes.fromhex(o[1])
+            return None
+        if t == 'header':
+            h = o[1]
+            if im.BitsStored != h['bs']:
+                im.BitsStored, im.HighBit = h['bs'], h['bs'] - 1
+            if im.PixelRepresentation != h['signed']:
+                im.PixelRepresentation = h['signed']
+            if (im.Rows, im.Columns) != (h['rows'], h['cols']):
+                im.Rows, im.Columns = h['rows'], h['cols']
+            if c['spp'] == 3 and im.PlanarConfiguration != h['planar']:
+                im.PlanarConfiguration = h['planar']
+            return None
+        raise ValueError(t)
+
+    try:
+        with _Quiet():
+            im = op.image(False)
+            return [_catch(lambda: do(im, o)) for o in c['ops']]
+    finally:
+        op.close()
+
+
 class _Quiet:
     """ImageFileReader.__exit__ writes tracebacks to stderr; keep the log clean."""
 
@@ -773,10 +973,39 @@ def _native_args(c):
     return f"{c['bits']} {c['bs']} {_b(c['signed'])} {npx} {c['n']} {zl(bytes.fromhex(c['pd']))}"
 
 
+def _cfmt(c, h):
+    """cfmt literal: fixed fields from the case c, editable header fields from h."""
+    npx = c['rows'] * c['cols'] * c['spp']
+    return (f"(CFmt (Fmt {c['bits']} {h['bs']} {_b(h['signed'])} {npx} {c['n']}) {c['spp']} "
+            f"{_b(h.get('planar', 0))} {h['rows']})")
+
+
 def coq_term(c):
     k = c['kind']
     if k == 'native':
         return f'(run_native {_native_args(c)})'
+    if k == 'planar':
+        return f"(run_native_c {_cfmt(c, c)} {zl(bytes.fromhex(c['pd']))})"
+    if k == 'history':
+        cur = {kk: c.get(kk, 0) for kk in HEADER_KEYS}
+        ops = []
+        for o in c['ops']:
+            t = o[0]
+            if t == 'whole':
+                ops.append('OWhole')
+            elif t == 'batch':
+                fs, ai = (list(range(1, c['n'] + 1)), False) if o[1] is None else (o[1], o[2])
+                if o[1] is None and o[2]:
+                    fs, ai = list(range(c['n'])), True
+                ops.append(f'(OBatch {zl(fs)} {_b(ai)})')
+            elif t in ('one', 'raw', 'decraw'):
+                ops.append(f"({ {'one': 'OOne', 'raw': 'ORaw', 'decraw': 'ODecodeRaw'}[t]} {zlit(o[1])} {_b(o[2])})")
+            elif t in ('assign', 'inplace'):
+                ops.append(f"({'OAssign' if t == 'assign' else 'OInplace'} {zl(bytes.fromhex(o[1]))})")
+            elif t == 'header':
+                cur = dict(o[1])
+                ops.append(f'(OHeader {_cfmt(c, cur)})')
+        return f"(run_history {_cfmt(c, c)} {zl(bytes.fromhex(c['pd']))} [{'; '.join(ops)}])"
     if k == 'raw422':
         m = f"(Fmt 8 8 false {c['rows'] * c['cols'] * 2} {c['n']})"
         pd = zl(bytes.fromhex(c['pd']))
@@ -813,7 +1042,11 @@ def _np_reference(c):
     u = u & ((1 << bs) - 1)
     if c['signed']:
         u = np.where(u >= (1 << (bs - 1)), u - (1 << bs), u)
-    return u.reshape(n, npx)
+    u = u.reshape(n, npx)
+    if c.get('planar') and c['spp'] > 1:
+        # stored R1R2..G1G2..B1B2.. -> returned (rows, columns, samples)
+        u = u.reshape(n, c['spp'], npx // c['spp']).transpose(0, 2, 1).reshape(n, npx)
+    return u
 
 
 def _expect_index(c):
@@ -826,7 +1059,9 @@ def _expect_index(c):
 def oracle(c, out):
     import numpy as np
     k = c['kind']
-    if k == 'native':
+    if k == 'history':
+        return _oracle_history(c, out)
+    if k in ('native', 'planar'):
         dtype, one, lz_ok, cached_ok, whole_ok, raws, raws_ok = out
         if isinstance(one, Err):
             return f'get_stored_frame raised {one.kind} on a valid image'
@@ -955,6 +1190,60 @@ def oracle(c, out):
     return f'unknown kind {k}'
 
 
+def _oracle_history(c, out):
+    """Every read must answer from the image as it is at that moment: values straight from the current
+    PixelData bytes under the current header (numpy only), current dtype and frame shape."""
+    cur = dict(c)
+    n, spp, bits = c['n'], c['spp'], c['bits']
+    npx = c['rows'] * c['cols'] * spp
+    hist = []
+    for j, (o, got) in enumerate(zip(c['ops'], out)):
+        t = o[0]
+        hist.append(t if t != 'header' else 'header' + str({k: v for k, v in o[1].items() if cur.get(k) != v}))
+        where = f'op {j} {t}{o[1:] if t not in ("assign", "inplace", "header") else ""} after [{", ".join(hist[:-1])}]'
+        if t in ('assign', 'inplace'):
+            cur['pd'] = o[1]
+            if got is not None:
+                return f'{where}: edit failed: {got}'
+            continue
+        if t == 'header':
+            cur.update(o[1])
+            if got is not None:
+                return f'{where}: edit failed: {got}'
+            continue
+        ref = _np_reference(cur)
+        want_dt = 'uint8' if bits == 1 else ('int' if cur['signed'] else 'uint') + str(bits)
+        want_shape = [cur['rows'], cur['cols']] + ([3] if spp == 3 else [])
+        if t == 'whole':
+            idx = list(range(n))
+        elif t == 'batch':
+            nums, ai = (range(1, n + 1), False) if o[1] is None else (o[1], o[2])
+            if o[1] is None and o[2]:
+                nums, ai = range(n), True
+            idx = [(f if ai else f - 1) for f in nums]
+        else:
+            idx = [o[1] if o[2] else o[1] - 1]
+        if any(not 0 <= i < n for i in idx):
+            if not (isinstance(got, Err) and got.kind == 'IndexError'):
+                return f'{where}: frame outside the image, expected IndexError, got {str(got)[:60]}'
+            continue
+        if isinstance(got, Err):
+            return f'{where}: raised {got.kind} on a valid request'
+        if t == 'raw':
+            pd = bytes.fromhex(cur['pd'])
+            lo, hi = (idx[0] * npx * bits) // 8, ((idx[0] + 1) * npx * bits + 7) // 8
+            if bytes(got) != pd[lo:hi]:
+                return f'{where}: raw frame is not bytes [{lo},{hi}) of the current PixelData'
+            continue
+        (dt, shape), vals = got
+        if dt != want_dt or list(shape) != want_shape:
+            return f'{where}: dtype/shape {dt}{shape}, the image now says {want_dt}{want_shape}'
+        want = [ref[i].tolist() for i in idx] if t in ('whole', 'batch') else ref[idx[0]].tolist()
+        if vals != want:
+            return f'{where}: values are not those of the current PixelData / header (stale or scrambled)'
+    return None
+
+
 def _marks(c):
     return [[bytes.fromhex(f)[:2] in (b'\xff\xd8', b'\xff\x4f') for f in fr] for fr in c['frames']]
 
@@ -980,8 +1269,10 @@ def _encaps_expect_open_failure(c, err):
 
 def nontrivial(c, out):
     k = c['kind']
-    if k in ('native', 'raw422'):
+    if k in ('native', 'raw422', 'planar'):
         return c['n'] > 1
+    if k == 'history':
+        return any(o[0] in ('assign', 'inplace', 'header') for o in c['ops'])
     if k in ('index', 'reader_index', 'reader_neg'):
         return True
     if k in ('encaps', 'encaps_bad'):
@@ -993,7 +1284,15 @@ def nontrivial(c, out):
 
 def shrink(c):
     k = c['kind']
-    if k in ('native', 'index', 'reader_index') and 'enc' not in c:
+    if k == 'history':
+        ops = c['ops']
+        for i in range(len(ops)):
+            yield dict(c, ops=ops[:i] + ops[i + 1:])
+        if c['src'] != 'dataset':
+            yield dict(c, src='dataset')
+        if c['ts'] != 'explicit':
+            yield dict(c, ts='explicit')
+    if k in ('native', 'index', 'reader_index', 'planar') and 'enc' not in c:
         npx = c['rows'] * c['cols'] * c['spp']
         for key in ('n', 'rows', 'cols'):
             if c[key] > 1:
